@@ -103,6 +103,16 @@ Section EquivModel.
   Definition kpca_matrix (n : nat) (kern : mat F) : mat F :=
     center_matrix n (kernel_matrix kern).
 
+  (* methods/isomap.hpp embed() after the shortest-path stage (tree as of F23):
+       S = G.array().square();  S = (S + S^T)/2;  centerMatrix(S);  S *= -0.5
+     G = table of geodesic distances (C04's subject; not necessarily symmetric) *)
+  Definition geo_sq (G : mat F) : mat F := fun i j => G i j * G i j.
+  Definition isomap_matrix (n : nat) (G : mat F) : mat F :=
+    fun i j => center_matrix n (sym_avg (geo_sq G)) i j * neg_half.
+  (* ... and before F23 (no symmetrisation; kept as a regression model) *)
+  Definition isomap_matrix_pre_f23 (n : nat) (G : mat F) : mat F :=
+    fun i j => center_matrix n (geo_sq G) i j * neg_half.
+
   (* embed(): embedding.first.col(c) *= sqrt(embedding.second(c));
      s c = the sqrt oracle's answer for the c-th selected eigenvalue *)
   Definition scale_cols (V : mat F) (s : vec F) : mat F := fun i c => V i c * s c.
@@ -127,9 +137,11 @@ Section EquivModel.
     rank_update_upper (- (1)) (mean_vec n X)
                       (fun i j => cov_accum n X i j / of_nat n).
 
-  (* what the dense solver is given on the shipped tree (F8: off-diagonals halved) *)
+  (* what the dense solver was given BEFORE the repair of F8 (off-diagonals halved;
+     "shipped" = the pinned tree of round 1; kept as a regression model) *)
   Definition pca_matrix_shipped (n : nat) (X : mat F) : mat F := sym_avg (cov_upper n X).
-  (* ... and after the repair of F8 (both triangles materialised) *)
+  (* ... and on the CURRENT tree (F8 repaired: compute_covariance_matrix returns
+     DenseSymmetricMatrix(C.selfadjointView<Upper>()), both triangles materialised) *)
   Definition pca_matrix_fixed (n : nat) (X : mat F) : mat F :=
     sym_avg (sym_from_upper (cov_upper n X)).
   (* the covariance matrix of the text books *)
@@ -272,5 +284,41 @@ Section EquivModel.
     mtab n n (lin_kernel D (mof LX)).
   Definition sq_dist_exec (n D : nat) (LX : list (list F)) : list (list F) :=
     mtab n n (sq_dist D (mof LX)).
+
+  (* what compute_covariance_matrix returns on the current tree, as a table *)
+  Definition cov_exec (n D : nat) (LX : list (list F)) : list (list F) :=
+    mtab D D (sym_from_upper (mof (cov_upper_exec n D LX))).
+
+  (* the transformations, on tables (used by the extracted relation checkers) *)
+  Definition perm_rows_exec (n D : nat) (ql : list nat) (LX : list (list F)) : list (list F) :=
+    mtab n D (perm_rows (fun i => nth i ql i) (mof LX)).
+  Definition pact_exec (n : nat) (ql : list nat) (LM : list (list F)) : list (list F) :=
+    mtab n n (pact (fun i => nth i ql i) (mof LM)).
+  Definition rotate_exec (n D : nat) (LR LX : list (list F)) : list (list F) :=
+    mtab n D (rotate D (mof LR) (mof LX)).
+  Definition translate_exec (n D : nat) (Lt : list F) (LX : list (list F)) : list (list F) :=
+    mtab n D (translate (vof Lt) (mof LX)).
+  Definition scale_exec (n D : nat) (c : F) (LX : list (list F)) : list (list F) :=
+    mtab n D (scale c (mof LX)).
+  Definition mscale_exec (n m : nat) (c : F) (LM : list (list F)) : list (list F) :=
+    mtab n m (mscale c (mof LM)).
+  (* R C R^T *)
+  Definition conj_exec (D : nat) (LR LC : list (list F)) : list (list F) :=
+    mtab D D (mmul D (mof LR) (mmul D (mof LC) (mtrans (mof LR)))).
+  (* R^T R, to be compared with the identity table *)
+  Definition gram_exec (D : nat) (LR : list (list F)) : list (list F) :=
+    mtab D D (mmul D (mtrans (mof LR)) (mof LR)).
+  Definition ident_exec (D : nat) : list (list F) := mtab D D mI.
+  Definition rot_vec_exec (D : nat) (LR : list (list F)) (Lv : list F) : list F :=
+    vtab D (fun a => sumn D (fun b => mof LR a b * vof Lv b)).
+  Definition isomap_matrix_exec (n : nat) (LG : list (list F)) : list (list F) :=
+    let S := mtab n n (sym_avg (geo_sq (mof LG))) in
+    let M := mof S in
+    let cm := vtab n (colmean n M) in
+    let g := grandmean n n M in
+    mtab n n (fun i j => (M i j + g - vof cm j - vof cm i) * neg_half).
+  (* squared distances between the rows of an embedding *)
+  Definition emb_sq_dist_exec (n d : nat) (LY : list (list F)) : list (list F) :=
+    mtab n n (fun i j => sumn d (fun c => (mof LY i c - mof LY j c) * (mof LY i c - mof LY j c))).
 
 End EquivModel.
